@@ -469,3 +469,22 @@ def _foundations(rep: Report, prog: Program) -> None:
 
     scheduled_action_fields(rep, "R5.8", prog, only=("next_sleep_s",))
     rep.floor("R5.8", 2)
+
+    from .common import forwarding_slice
+
+    forwarding_slice(rep, "R5.9", prog, ("strategy", "strategies", "class_strategies"), "the strategies the caller configured are the ones consulted: strategy and the per-class strategies table reach the retry component unchanged through every layer - decorator, sugar classes, from_config (= their obligations of C12 R12.3)")
+
+    rep.rule("R5.11", "the strategy is consulted only for a retry that can be granted: every time-independent stop test (per-class cap, non-retryable class, UNKNOWN cap, global attempt cap, no strategy) comes before the strategy call, so no delay is computed, reported or slept for a retry that is then refused (= C03 R3.4)")
+    from .c03 import check_failure_table
+    from .common import RuleView
+
+    check_failure_table(RuleView(rep, "R5.11", only=("R3.4",)), prog)
+    rep.instance("R5.11", "_handle_failure|stop-tests-first")
+    rep.ok("R5.11")
+    rep.floor("R5.11", 1)
+
+    rep.rule("R5.10", "what the captured timeline reports as the delay of a `retry` event is the delay that was applied: its sleep_s is the sleep_s the event was emitted with (= C14 R14.11)")
+    from .common import timeline_record
+
+    timeline_record(rep, "R5.10", prog, fields=("sleep_s",))
+    rep.floor("R5.10", 1)
